@@ -104,6 +104,7 @@ func (tr *Trans) call(c *ssa.CallCommon, in ssa.Instruction, resT types.Type) Va
 	case *ssa.Builtin:
 		return tr.builtin(v, c, args, in, resT)
 	case *ssa.Function:
+		tr.recvNilCheck(in, c, args)
 		return tr.staticCall(v, nil, args, in, resT)
 	case *ssa.MakeClosure:
 		fv := tr.val(v)
